@@ -185,13 +185,21 @@ Proof. repeat split; vm_compute; try reflexivity; discriminate. Qed.
 
 (** ===== blocks and time series ============================================================================== *)
 
-Theorem C08_block_pad_samples : forall h n, h_nsamples (hdr_block_pad_samples h n) = n /\ h_nchans (hdr_block_pad_samples h n) = h_nchans h.
+(** padding: the sample count is the padded length and tstart moves BACK by the leading pad (the first column of the padded block
+    lies [off] samples before the first sample of the data) *)
+Theorem C08_block_pad_samples : forall h n off, let h' := hdr_block_pad_samples h n off in
+  h_nsamples h' = n /\ h_nchans h' = h_nchans h /\ advanced h h' (- off) /\ (h_tsamp h' == h_tsamp h)%Q.
 Proof. exact block_pad_samples_hdr. Qed.
 Print Assumptions C08_block_pad_samples.
 
-Theorem C08_block_downsample : forall h ff tf, let h' := hdr_block_downsample h ff tf in
+(** the blocks BaseBlock.normalise / pad_samples return carry the DM of the block they were made from *)
+Theorem C08_block_new_like_keeps_dm : forall d, (cdm_block_new_like d == d)%Q.
+Proof. exact block_new_like_dm. Qed.
+Print Assumptions C08_block_new_like_keeps_dm.
+
+Theorem C08_block_downsample : forall h ff tf d, let h' := hdr_block_downsample h ff tf d in
   decimated h h' tf /\ h_nsamples h' = h_nsamples h / tf /\ h_nchans h' = h_nchans h / ff /\ sums_channels h h' ff /\
-  (h_tstart h' == h_tstart h)%Q.
+  (h_tstart h' == h_tstart h)%Q /\ (cdm_block_downsample h ff tf d == d)%Q.
 Proof. exact block_downsample_hdr. Qed.
 Print Assumptions C08_block_downsample.
 
